@@ -172,7 +172,7 @@ func (s *Set) Complement(endSymbol rune) *Set {
 		set.Tail.Backward = &node
 		return set
 	}
-	if s.Head.Forward.Begin == 0 && s.Head.Forward.End == endSymbol {
+	if s.Head.Forward.Begin == 0 && s.Head.Forward.End >= endSymbol {
 		return set
 	}
 	a, b := &s.Head, &set.Head
@@ -182,22 +182,27 @@ func (s *Set) Complement(endSymbol rune) *Set {
 		pre = a.End + 1
 	}
 	a = a.Forward
+	done := false
 	for a.Forward != nil {
-		node := Node{
-			Backward: b,
-			Begin:    pre,
-			End:      a.Begin - 1,
+		// no gap in front of an interval that is adjacent to the previous one
+		if pre < a.Begin && pre <= endSymbol {
+			node := Node{
+				Backward: b,
+				Begin:    pre,
+				End:      min(a.Begin-1, endSymbol),
+			}
+			b.Forward = &node
+			b = b.Forward
 		}
-		if a.End == endSymbol {
-			pre = endSymbol
-		} else {
-			pre = a.End + 1
+		if a.End >= endSymbol {
+			// nothing is left up to the limit
+			done = true
+			break
 		}
-		b.Forward = &node
+		pre = max(pre, a.End+1)
 		a = a.Forward
-		b = b.Forward
 	}
-	if pre < endSymbol {
+	if !done && pre <= endSymbol {
 		node := Node{
 			Backward: b,
 			Begin:    pre,
@@ -205,6 +210,10 @@ func (s *Set) Complement(endSymbol rune) *Set {
 		}
 		b.Forward = &node
 		b = b.Forward
+	}
+	if b == &set.Head {
+		// the complement is empty
+		return set
 	}
 	b.Forward = &set.Tail
 	set.Tail.Backward = b
